@@ -442,13 +442,26 @@ func TestDoerner(t *testing.T) {
 // TestSweep (thorough) visits EVERY node of EVERY message kind of every protocol with the malformations that
 // most often expose a missing check (absent, null, wrong container, empty), one run per (node, malformation).
 func TestSweep(t *testing.T) {
+	sweep(t, append(append([]string{}, cheapProtos...), cmpProtos...), []string{"absent", "null", "empty-map", "empty-bytes", "type-int", "empty-array"}, 0)
+}
+
+// TestSweepAbort (quick) is the part of the sweep that only a deviating presigner makes reachable: every node of the
+// messages of the identifiable-abort rounds of cmp presign (abort1 after a wrong delta, abort2 after a wrong chi),
+// absent or null.
+func TestSweepAbort(t *testing.T) {
+	sweep(t, []string{proto.CMPPresign}, []string{"absent", "null"}, 7)
+}
+
+func sweep(t *testing.T, protos, kinds []string, minRound int) {
 	rec := ev.Get()
-	kinds := []string{"absent", "null", "empty-map", "empty-bytes", "type-int", "empty-array"}
 	i := 0
-	for _, p := range append(append([]string{}, cheapProtos...), cmpProtos...) {
+	for _, p := range protos {
 		devs := []string{""}
 		if p == proto.CMPPresign || p == proto.CMPPresignFull {
 			devs = []string{"", "gamma-for-delta", "x-for-chi"}
+		}
+		if minRound > 0 {
+			devs = devs[1:]
 		}
 		for _, dev := range devs {
 			c := Case{Setup: advrun.Setup{Proto: p, N: 2, T: 1, Seed: 1}, Deviation: dev, Mode: "shape"}
@@ -458,7 +471,7 @@ func TestSweep(t *testing.T) {
 			}
 			seen := map[string]bool{}
 			for ti, m := range msgs {
-				if m.RoundNumber == 0 {
+				if m.RoundNumber == 0 || int(m.RoundNumber) < minRound {
 					continue
 				}
 				root, err := mut.Decode(m.Data)
